@@ -291,12 +291,8 @@ impl G<'_> {
                 let variants: Vec<(String, Vec<Ty>)> = (0..nv)
                     .map(|i| {
                         let np = self.rng.weighted(&[3, 4, 2]);
-                        let mut payload: Vec<Ty> = (0..np).map(|_| self.gen_ty(depth - 1)).collect();
-                        if let Some(first) = payload.first_mut() {
-                            if matches!(first, Ty::Tuple(_)) {
-                                *first = self.leaf_ty(); // parser: first payload type must start with an identifier
-                            }
-                        }
+                        let payload: Vec<Ty> = (0..np).map(|_| self.gen_ty(depth - 1)).collect();
+                        // (the first payload type may be a tuple or an array: parser repaired, FX-C05-7)
                         (format!("V{i}"), payload)
                     })
                     .collect();
